@@ -12,7 +12,10 @@ import (
 	"crypto/sha256"
 	"encoding/hex"
 	"net"
+	"os"
+	"runtime"
 	"sort"
+	"strconv"
 	"strings"
 	"sync"
 
@@ -21,6 +24,7 @@ import (
 	"github.com/valyala/fasthttp"
 	"github.com/valyala/fasthttp/fasthttputil"
 
+	"verifharness/internal/ev"
 	"verifharness/internal/reg"
 )
 
@@ -59,6 +63,28 @@ type parsed struct {
 	FormErr  string
 	IsMulti  bool
 	IsURLEnc bool
+}
+
+// recordMaxRSS puts the peak resident set size of the process (VmHWM) into the stats.
+func recordMaxRSS(e *ev.Env) {
+	var ms runtime.MemStats
+	runtime.GC()
+	runtime.ReadMemStats(&ms)
+	e.StatMax("heap_live_mb_at_end", int64(ms.HeapAlloc>>20))
+	b, err := os.ReadFile("/proc/self/status")
+	if err != nil {
+		return
+	}
+	for _, line := range strings.Split(string(b), "\n") {
+		if strings.HasPrefix(line, "VmHWM:") {
+			f := strings.Fields(line)
+			if len(f) >= 2 {
+				if kb, err := strconv.Atoi(f[1]); err == nil {
+					e.StatMax("max_rss_mb", int64(kb/1024))
+				}
+			}
+		}
+	}
 }
 
 func hashHex(b []byte) string {
